@@ -36,7 +36,7 @@ TAMPERS_OUT = [
     "swap-change-spk:p2pkh", "swap-change-spk:p2wpkh", "swap-change-spk:p2sh", "swap-change-spk:p2wsh", "swap-change-spk:p2tr",
     "swap-change-spk-redeem-only-metadata", "foreign-wallet-change", "single-cosigner-change", "duplicated-cosigner-change",
     "change-wrong-path", "change-foreign-fingerprint", "change-quorum-lowered", "second-change-output", "spend-output-dressed-as-change",
-    "change-one-wallet-key-rest-foreign",
+    "change-one-wallet-key-rest-foreign", "change-foreign-keys-unwalkable-path",
 ]
 TAMPERS_IN = [
     "input-prev-tx-altered", "input-witness-utxo-amount-with-sig", "input-foreign-script", "input-derivation-wrong-path",
@@ -256,6 +256,21 @@ def tampers(ctx, rng, raw, signed_raw, wallet, truth, change_pos, paths=None):
         mm = with_tx(maps, mo)
         mm["outs"][change_pos] = out_meta(truth, secs, script, kind)
         yield "foreign-wallet-change", "raise-or-not-change", rp.encode(mm)
+        # foreign keys announced under the REAL cosigner fingerprints with a path the cosigner's xpub cannot walk
+        # (a hardened step below the account key, or a path shorter than the account path)
+        for variant in ("hardened-below-xpub", "shorter-than-xpub"):
+            fkeys = [ec.sec(ec.mul(rng.randrange(1, ec.N))) for _ in range(truth.n)]
+            if variant == "hardened-below-xpub":
+                path = truth.account_path + [1, 3 + 2**31]
+            else:
+                path = truth.account_path[:-1]
+            secs = [(fkeys[w], truth.accounts[w][0] + b"".join(i.to_bytes(4, "little") for i in path)) for w in range(truth.n)]
+            script = truth.script(fkeys)
+            mo = copy_model(model)
+            mo["outs"][change_pos]["script"] = truth.commit(script)
+            mm = with_tx(maps, mo)
+            mm["outs"][change_pos] = out_meta(truth, secs, script, kind)
+            yield "change-foreign-keys-unwalkable-path", "raise-or-not-change", rp.encode(mm)
         # all keys from cosigner 0 (n > 1), and cosigner 0 twice
         if truth.n > 1:
             xfp0, K0, c0 = truth.accounts[0]
